@@ -109,8 +109,8 @@ theorem C02_epoch_queue_run_refines_short (h : Nat) (hh : h < EQV.M64) (ops : Li
 /-! ### Map lane `Drop(n)` / `Take(n)` -/
 
 /-- the lane's map stays strictly sorted by key along every run (the order `sync` and take/drop use) -/
-theorem C02_map_sorted (ops : List ML.Op) : ML.Sorted (ML.run {} ops).content :=
-  ML.sorted_run ops {} ML.sorted_nil
+theorem C02_map_sorted (ops : List ML.Op) : ML.KeySorted (ML.run {} ops).content :=
+  ML.keySorted_run ops {} ML.keySorted_nil
 
 /-- take / drop remove exactly the keys designated by the key order -/
 theorem C02_take_drop_spec :
